@@ -423,11 +423,11 @@ func init() {
 		func(c *Ctx) int { return c.Pick(300, 1500) }, judgeC02, wfAssume)
 	wfProperty("C03", "fault_enumeration",
 		"programs from the WF generator biased to cleanup/error providers; for every injector EVERY error-capable provider in its needed set is failed in turn (enumerated), followed by a rapid-drawn sequence of 3-12 further calls alternating failures and successes; oracle per faulted call: no call after the failing one, cleanups of the already succeeded cleanup providers exactly once in reverse acquisition order, the failing provider's own cleanup never runs, zero result, nil cleanup, the identical error value; successes in the sequence must be complete correct runs and the same (injector, fault) must always produce the same event shape. evaluations = programs; faulted injector calls are reported in notes. Non-trivial = injector with >=2 error-capable providers and >=1 cleanup provider.",
-		func(c *Ctx) WFOpts { return WFOpts{MoreErr: true, Sequences: true, Names: 30} },
+		func(c *Ctx) WFOpts { return WFOpts{MoreErr: true, Sequences: true, Names: 30, ChainPct: 12} },
 		func(c *Ctx) int { return c.Pick(300, 1500) }, judgeC03, wfAssume)
 	wfProperty("C04", "exploration",
 		"programs from the WF generator biased to cleanup providers; on every fault-free call of an injector declaring a cleanup result: returned function non-nil (also with zero cleanup providers), no provider cleanup before the caller's invocation, afterwards exactly the cleanups of the cleanup providers that ran, once each, in the exact reverse of the observed call order, and (independently) before the cleanup of any transitive dependency. Non-trivial = >=3 cleanup providers not on a single dependency chain.",
-		func(c *Ctx) WFOpts { return WFOpts{MoreErr: true, NoFaults: true, Names: 30} },
+		func(c *Ctx) WFOpts { return WFOpts{MoreErr: true, NoFaults: true, Names: 30, ChainPct: 12} },
 		func(c *Ctx) int { return c.Pick(300, 1500) }, judgeC04, wfAssume)
 }
 
